@@ -193,6 +193,8 @@ var c12RespPool = []string{
 	"Server: nginx", "X-Trace: a:b:c", "Date: Mon, 01 Jan 2024 10:00:00 GMT", "Cache-Control: no-cache, no-store",
 	"X-Powered-By: PHP/8.1.2", "Location: https://cdn.example.com/x", "X-Frame-Options: DENY", "Server: nginx",
 	"Server: Apache/2.4.57 (Unix)",
+	// a header that a profile legitimately configures more than once
+	"Set-Cookie: sid=7f3a; Path=/; HttpOnly", "Set-Cookie: lang=en", "Set-Cookie: theme=dark; Max-Age=3600",
 }
 
 var c12Peers = []string{"198.51.100.7", "203.0.113.44", "10.1.2.3", "2001:db8::1", "fe80::1c2:3ff:fe04:5", "::1"}
@@ -250,6 +252,9 @@ func c12DrawResp(r *simrt.Rand) []string {
 	for tries := 0; len(out) < n && tries < 20; tries++ {
 		h := pick(r, c12RespPool)
 		k := strings.ToLower(h[:strings.Index(h, ":")])
+		if k == "set-cookie" {
+			k = strings.ToLower(h) // one Set-Cookie line per cookie: the name may repeat, the line not
+		}
 		if seen[k] {
 			continue
 		}
@@ -1056,7 +1061,13 @@ func (st *c12State) request(a Action) {
 			got = strings.TrimSpace(vals[0])
 		}
 		res.Probe("response-headers-checked")
-		if present && got == want {
+		carried := false
+		for _, v := range vals {
+			if strings.TrimSpace(v) == want {
+				carried = true // (a name configured twice is carried twice)
+			}
+		}
+		if carried {
 			continue
 		}
 		how := "value-differs"
